@@ -717,6 +717,102 @@ fn ex_groups(n: &mut Net, out: &mut RunOut) {
 }
 
 
+
+/// Public-data helpers the verifiers rely on, driven directly: a Schnorr-style relation s*G = R + k*Q in
+/// which the *challenge k is delivered* (as in protocols that transmit it rather than recompute it), with
+/// structured k (+/- 2^e, +/- 1/2^e, m*2^e, boundary values): `Point::verify_helper_vartime` and
+/// `Scalar::split_vartime`. Universal invariant only; the boolean goes into the transcript.
+macro_rules! ex_helper {
+    ($fname:ident, $m:ident, $name:expr, $slen:expr, $has_split:tt) => {
+        fn $fname(n: &mut Net, out: &mut RunOut) {
+            use crrl::$m::{Point, Scalar};
+            let e = n.t.usize(8 * $slen);
+            let mut b = vec![0u8; $slen + 8];
+            b[e / 8] = 1u8 << (e % 8);
+            if n.t.chance(1, 3) {
+                // m * 2^e with a boundary-biased 64-bit m
+                let m = [1u64, 3, u64::MAX, 0x8000_0000_0000_0001, n.rng.u64()][n.t.usize(5)];
+                let mut acc = 0u128;
+                for i in 0..8 {
+                    let pos = e / 8 + i;
+                    if pos < b.len() {
+                        acc += ((m >> (8 * i)) as u8 as u128) << (e % 8);
+                        b[pos] = acc as u8;
+                        acc >>= 8;
+                    }
+                }
+            }
+            let base = Scalar::decode_reduce(&b);
+            let k = match n.t.usize(8) {
+                0 => base,
+                1 => -base,
+                2 => Scalar::ONE / base,
+                3 => -(Scalar::ONE / base),
+                4 => base + Scalar::ONE,
+                5 => base - Scalar::ONE,
+                6 => Scalar::ONE / (base + Scalar::ONE),
+                _ => Scalar::decode_reduce(&n.rng.bytes($slen)),
+            };
+            let s = Scalar::decode_reduce(&n.rng.bytes($slen));
+            let q = Point::mulgen(&Scalar::decode_reduce(&n.rng.bytes($slen)));
+            let r = Point::mulgen(&s) - q * k;
+            // the three public values travel; whatever arrives and still decodes is used
+            let kd = n.field(out, &k.encode());
+            let sd = n.field(out, &s.encode());
+            let k2 = Scalar::decode(&kd).unwrap_or(k);
+            let s2 = Scalar::decode(&sd).unwrap_or(s);
+            out.ev(format_args!("{} helper k={} s={}", $name, hex(&k2.encode()), hex(&s2.encode())));
+            let v = g!(out, concat!("call.", $name, ".verify_helper_vartime"), format!("k={} s={}", hex(&k2.encode()), hex(&s2.encode())), q.verify_helper_vartime(&r, &s2, &k2));
+            out.ev(format_args!("{} verify_helper_vartime(k={}) -> {:?}", $name, hex(&k2.encode()), v));
+            yesno(out, "helper", v == Some(true));
+            split_call!($has_split, $name, out, k2);
+        }
+    };
+}
+
+macro_rules! split_call {
+    (true, $name:expr, $out:expr, $k:expr) => {
+        // the split itself is 'one of several admissible values': only its termination is observed
+        let r = g!($out, concat!("call.", $name, ".Scalar_split_vartime"), hex(&$k.encode()), { let _ = $k.split_vartime(); });
+        $out.ev(format_args!(" split_vartime returned: {}", r.is_some()));
+    };
+    (false, $name:expr, $out:expr, $k:expr) => {};
+}
+
+ex_helper!(ex_helper_ed25519, ed25519, "ed25519", 32, true);
+ex_helper!(ex_helper_p256, p256, "p256", 32, true);
+ex_helper!(ex_helper_secp256k1, secp256k1, "secp256k1", 32, true);
+ex_helper!(ex_helper_ristretto255, ristretto255, "ristretto255", 32, true);
+ex_helper!(ex_helper_ed448, ed448, "ed448", 56, true);
+ex_helper!(ex_helper_decaf448, decaf448, "decaf448", 56, true);
+
+fn ex_helper_jq(n: &mut Net, out: &mut RunOut) {
+    // jq255e / jq255s / gls254 scalars: split_vartime on delivered structured scalars
+    macro_rules! one {
+        ($m:ident, $name:expr) => {{
+            use crrl::$m::Scalar;
+            let e = n.t.usize(256);
+            let mut b = vec![0u8; 40];
+            b[e / 8] = 1u8 << (e % 8);
+            let base = Scalar::decode_reduce(&b);
+            let k = match n.t.usize(5) {
+                0 => base,
+                1 => -base,
+                2 => Scalar::ONE / base,
+                3 => -(Scalar::ONE / base),
+                _ => base + Scalar::ONE,
+            };
+            let kd = n.field(out, &k.encode());
+            let k2 = Scalar::decode(&kd).unwrap_or(k);
+            let r = g!(out, concat!("call.", $name, ".Scalar_split_vartime"), hex(&k2.encode()), { let _ = k2.split_vartime(); });
+            out.ev(format_args!("{} split_vartime({}) returned: {}", $name, hex(&k2.encode()), r.is_some()));
+        }};
+    }
+    one!(jq255e, "jq255e");
+    one!(jq255s, "jq255s");
+    one!(gls254, "gls254");
+}
+
 /// FROST wire decoders and verifiers fed with whatever the network delivers (any length, bytes of other
 /// protocols, other encodings of the same point). Universal invariant only.
 fn ex_frost<S: crate::world::suite::Suite>(n: &mut Net, out: &mut RunOut) {
@@ -787,7 +883,7 @@ pub fn run(t: &mut Tape, tier: Tier, out: &mut RunOut) {
     let mut n = Net { t, rng, junkyard: Vec::new(), rate };
     out.summary = format!("exchange world: {} exchanges, per-field corruption rate {}/1000", nex, rate);
     for i in 0..nex {
-        let which = n.t.usize(12);
+        let which = n.t.usize(14);
         out.sched("exchange", which as u32, i as u32);
         match which {
             0 => ex_ed25519(&mut n, out, tier),
@@ -800,6 +896,15 @@ pub fn run(t: &mut Tape, tier: Tier, out: &mut RunOut) {
             7 => ex_x25519(&mut n, out),
             8 => ex_x448(&mut n, out),
             9 => ex_groups(&mut n, out),
+            10 | 11 => match n.t.usize(7) {
+                0 => ex_helper_ed25519(&mut n, out),
+                1 => ex_helper_p256(&mut n, out),
+                2 => ex_helper_secp256k1(&mut n, out),
+                3 => ex_helper_ristretto255(&mut n, out),
+                4 => ex_helper_ed448(&mut n, out),
+                5 => ex_helper_decaf448(&mut n, out),
+                _ => ex_helper_jq(&mut n, out),
+            },
             _ => match n.t.usize(5) {
                 0 => ex_frost::<crate::world::suite::Ed25519>(&mut n, out),
                 1 => ex_frost::<crate::world::suite::Ristretto255>(&mut n, out),
